@@ -1,8 +1,9 @@
 CONSTANT KTab <- MC_KTab
-CONSTANT Kernels <- KSmall
+CONSTANT Kernels <- KTiny
 CONSTANT NWs = {1, 2, 3, 5, 0}
 CONSTANT Timeouts = {TRUE, FALSE}
 CONSTANT TickEnabled = TRUE
+CONSTANT ReduceIdle = FALSE
 CONSTANT DeadlineTestFirst = FALSE
 SPECIFICATION Spec
 INVARIANT TypeOK
